@@ -56,18 +56,37 @@ def _loader_sites(fa: FA) -> List[Tuple[int, ast.Call, int]]:
     return out
 
 
-def _normalises(fa: FA, p: str, before: int) -> bool:
-    """'if p < 0: p = len(self) + p' lies before node ``before`` on every path that carries a negative p."""
+def _name_closure(fa: FA, e: ast.AST, at: int, depth: int = 3) -> Set[str]:
+    """names the expression is computed from, through the definitions of its locals (any right-hand side)"""
+    out: Set[str] = set()
+    work = [(e, at, depth)]
+    while work:
+        x, n, d = work.pop()
+        for y in ast.walk(x):
+            if isinstance(y, ast.Name) and isinstance(y.ctx, ast.Load) and y.id not in out:
+                out.add(y.id)
+                if d > 0:
+                    for dn in fa.cfg.reaching().get(n, {}).get(y.id, ()):
+                        v = fa.cfg.def_value(dn, y.id) if fa.cfg.nodes[dn].kind != "entry" else None
+                        if v is not None:
+                            work.append((v, dn, d - 1))
+    return out
+
+
+def _normalises(fa: FA, p: str, before: int, var_defs=None) -> bool:
+    """'if p < 0: p = len(self) + p' lies before node ``before`` on every path that carries a negative p (p the index parameter,
+    or - var_defs given - a loop variable with those definitions)."""
     cfg = fa.cfg
+    P = ("param", p) if var_defs is None else ("var", p, var_defs)
     for n, var, val in fa.stores():
         if var != p or val is None:
             continue
-        want = Poly.atom(("call", ("global", "len"), (("param", fa.self_name),), ())) + Poly.atom(("param", p))
+        want = Poly.atom(("call", ("global", "len"), (("param", fa.self_name),), ())) + Poly.atom(P)
         if term_to_poly(fa.sym.term(val, n)) != want:
             continue
-        if ("lt", ("param", p)) not in fa.conds_at(n):
+        if ("lt", P) not in fa.conds_at(n):
             continue
-        tests = [t_ for t_, lab in cfg.control_predicates(n) if fa.sym.term(cfg.nodes[t_].ast, t_) == ("lt", ("param", p))
+        tests = [t_ for t_, lab in cfg.control_predicates(n) if fa.sym.term(cfg.nodes[t_].ast, t_) == ("lt", P)
                  and cfg.nodes[t_].kind == "test"]
         if tests and cfg.dominates(tests[-1], before):
             first = cfg.out_edge(tests[-1], True)
@@ -107,8 +126,20 @@ def getitem(prog: Program, rep: Report, MW: ClassInfo):
             ok_args = len(c.args) == 2 and not c.keywords
             a0 = fa.sym.term(c.args[0], n) if c.args else None
             idx_ok = a0 is not None and (a0 == ("param", ps[1]) or (a0[0] == "var" and a0[1] == ps[1]))
+            # the element-wise paths (slice / index list) may run the loaders in a loop of their own (helpers inlined): the index
+            # is then the variable of a loop over something computed from the index parameter
+            elem_loop = None
+            if a0 is not None and not idx_ok and a0[0] == "var" and len(a0[2]) == 1:
+                (d0,) = a0[2]
+                if cfg.nodes[d0].kind == "next" and _n(cfg.nodes[d0].owner.target) == a0[1]:
+                    it_names = _name_closure(fa, cfg.nodes[d0].owner.iter, cfg.stmt_node[cfg.nodes[d0].owner])
+                    if ps[1] in it_names:
+                        elem_loop = d0
+                        idx_ok = True
             cv = _n(c.args[1]) if len(c.args) > 1 else None
-            rep.decide(ok_args and idx_ok and cv is not None, "G8.ctx-fresh", m, "loader-arguments",
+            derived = (not idx_ok) and bool(c.args) and ps[1] in _name_closure(fa, c.args[0], n)
+            rep.decide(None if (ok_args and derived and cv is not None) else (ok_args and idx_ok and cv is not None),
+                       "G8.ctx-fresh", m, "loader-arguments",
                        "loader(idx, ctx) with the function's own index and the context variable",
                        "a loader is not called as loader(<own index>, <context variable>)", line=c.lineno, clause="C01.1")
             if cv is None:
@@ -161,8 +192,29 @@ def getitem(prog: Program, rep: Report, MW: ClassInfo):
             rep.decide(not problems, "G8.ctx-fresh", m, "context-object", f"'{cv}' is a fresh dict per invocation (or None)",
                        "; ".join(problems), line=fa.line(min(reach)) if reach else m.node.lineno, clause="C01.1")
             # ---- negative index -------------------------------------------------------------------------------------
-            norm = _normalises(fa, ps[1], LN)
-            if norm:
+            if derived:
+                continue  # an index computed from the parameter in another way: its normalisation is not decided here
+            if elem_loop is not None:
+                lp = cfg.nodes[elem_loop].owner
+                it_e = lp.iter
+                if isinstance(it_e, ast.Name):
+                    ds_ = [d_ for d_ in cfg.reaching().get(cfg.stmt_node[lp], {}).get(it_e.id, ()) if cfg.nodes[d_].kind != "entry"]
+                    if len(ds_) == 1 and cfg.def_value(ds_[0], it_e.id) is not None:
+                        it_e = cfg.def_value(ds_[0], it_e.id)
+                from_range = isinstance(it_e, ast.Subscript) and isinstance(it_e.value, ast.Call) and _n(it_e.value.func) == "range"
+                in_loop_norm = _normalises(fa, a0[1], LN, var_defs=a0[2])
+                rep.decide(from_range or in_loop_norm, "G6.index-forms", m, f"negative-index:elementwise@{'slice' if from_range else 'list'}",
+                           "the elements are positions of range(len(self)) / normalised in the loop",
+                           f"the loaders run for every element of {ast.unparse(lp.iter)[:40]} as it is: a negative entry of an index "
+                           f"list reaches the loaders un-normalised ('index' reports it, index-seeded wrappers draw another "
+                           f"sample)", line=fa.line(n), clause="C01.4")
+                continue_site = True
+            else:
+                continue_site = False
+            norm = _normalises(fa, ps[1], LN) if not continue_site else True
+            if continue_site:
+                pass
+            elif norm:
                 rep.ok("G6.index-forms", m, "negative-index", "idx < 0 -> len(self) + idx before the loader loop", clause="C01.4")
             else:
                 bad = []
@@ -202,6 +254,29 @@ def getitem(prog: Program, rep: Report, MW: ClassInfo):
                            + ": the 'index' item and every index-seeded wrapper see the raw negative value", clause="C01.4")
         # ---- return shape ---------------------------------------------------------------------------------------------------
         rets = [(n, fa.ret_ast(n)[0]) for n, t in fa.returns() if any(cfg.reachable(LN, n) for _, _, LN in sites)]
+        # element-wise paths collect the per-sample results in a list: there the per-sample result is what is appended
+        agg = []
+        elem_bodies = []
+        for n_s, c_s, _LN in sites:
+            a0_ = fa.sym.term(c_s.args[0], n_s) if c_s.args else None
+            if a0_ is not None and a0_[0] == "var" and len(a0_[2]) == 1 and a0_[1] != ps[1]:
+                (d0_,) = a0_[2]
+                if cfg.nodes[d0_].kind == "next":
+                    elem_bodies.append(cfg.nodes_inside(cfg.nodes[d0_].owner.body))
+        for n_, c_ in fa.calls_named("append"):
+            if not any(n_ in b_ for b_ in elem_bodies):
+                continue
+            if c_.args and isinstance(c_.args[0], ast.Name) and isinstance(c_.func.value, ast.Name):
+                rv_name = c_.args[0].id
+                lst_name = c_.func.value.id
+                for d_ in cfg.reaching().get(n_, {}).get(rv_name, ()):
+                    v_ = cfg.def_value(d_, rv_name) if cfg.nodes[d_].kind != "entry" else None
+                    if v_ is not None and any(cfg.reachable(LN, d_) for _, _, LN in sites) and any(
+                            _n(rv2) == lst_name for _r, rv2 in rets):
+                        agg.append((d_, v_, lst_name))
+        if agg:
+            lists_ = {l_ for _, _, l_ in agg}
+            rets = [(n_, rv_) for n_, rv_ in rets if _n(rv_) not in lists_] + [(d_, v_) for d_, v_, _ in agg]
         ok = bool(rets)
         why = "(items, ctx) iff self.return_ctx"
         for n, rv in rets:
